@@ -1,0 +1,77 @@
+//go:build verif
+
+package scanner
+
+import (
+	"reflect"
+	"runtime"
+	"strings"
+)
+
+// VerifEvent is a queued or stacked lexeme event as seen by the verification harness.
+type VerifEvent struct {
+	Type string
+	Pos  uint
+}
+
+// VerifConf is a read-only snapshot of the scanner's configuration.
+type VerifConf struct {
+	Step      string
+	StepStack []string // top first
+	Finds     []VerifEvent
+	Stack     []VerifEvent // top first
+	Params    [][2]uint
+	Cur       uint
+	Size      uint
+}
+
+func verifFuncName(f stepFunc) string {
+	if f == nil {
+		return "nil"
+	}
+	n := runtime.FuncForPC(reflect.ValueOf(f).Pointer()).Name()
+	if i := strings.LastIndex(n, "."); i >= 0 {
+		n = n[i+1:]
+	}
+	return n
+}
+
+// VerifSnapshot returns the current configuration of the scanner. It does not modify it.
+func (s *Scanner) VerifSnapshot() VerifConf {
+	c := VerifConf{
+		Step: verifFuncName(s.step),
+		Cur:  uint(s.curIndex),
+		Size: uint(s.dataSize),
+	}
+	for i := len(s.stepStack) - 1; i >= 0; i-- {
+		c.StepStack = append(c.StepStack, verifFuncName(s.stepStack[i]))
+	}
+	for _, e := range s.finds {
+		c.Finds = append(c.Finds, VerifEvent{verifEventName(e.type_), uint(e.position)})
+	}
+	for i := len(s.stack) - 1; i >= 0; i-- {
+		e := s.stack[i]
+		c.Stack = append(c.Stack, VerifEvent{verifEventName(e.type_), uint(e.position)})
+	}
+	for _, l := range s.lastDirectiveParameters {
+		c.Params = append(c.Params, [2]uint{uint(l.begin), uint(l.end)})
+	}
+	return c
+}
+
+var verifEventNames = [...]string{
+	KeywordBegin: "KeywordBegin", KeywordEnd: "KeywordEnd",
+	ParameterBegin: "ParameterBegin", ParameterEnd: "ParameterEnd",
+	AnnotationBegin: "AnnotationBegin", AnnotationEnd: "AnnotationEnd",
+	SchemaBegin: "SchemaBegin", SchemaEnd: "SchemaEnd",
+	TextBegin: "TextBegin", TextEnd: "TextEnd",
+	ContextOpen: "ContextOpen", ContextClose: "ContextClose",
+	EnumBegin: "EnumBegin", EnumEnd: "EnumEnd",
+}
+
+func verifEventName(t LexemeEventType) string {
+	if int(t) < len(verifEventNames) {
+		return verifEventNames[t]
+	}
+	return "unknown"
+}
